@@ -1,9 +1,12 @@
 -- REGENERATED on every run by /verif/check from the compiled /repo tree. Do not edit.
 namespace SdnsVerif.Gen.C03
 
+def canonicalname_rewritten_bytes : List Nat := [128, 255]
 def cut_salt : Nat := 9232590889316880868
 def decoder_ddd_bytes : List Nat := [0, 31, 127, 255]
 def decoder_escaped_bytes : List Nat := [32, 34, 39, 40, 41, 46, 59, 64, 92]
+def equalfold_covers_ascii_fold : Bool := true
+def equalfold_extra_ascii_pairs : List Nat := []
 def failure_question_salt : Nat := 6028393302611553803
 def failure_zone_salt : Nat := 13394572768568508630
 def max_wire_chase_hops : Nat := 10
